@@ -147,7 +147,8 @@ func (sf *seqFile) stmtFor(line, col int) (ast.Stmt, bool) {
 			break
 		}
 		switch st.(type) {
-		case *ast.DeferStmt, *ast.ForStmt, *ast.CaseClause, *ast.CommClause, *ast.BlockStmt:
+		case *ast.DeferStmt, *ast.ForStmt, *ast.RangeStmt, *ast.CaseClause, *ast.CommClause, *ast.BlockStmt:
+			// (a loop header is evaluated once per iteration, a point before the loop only once)
 			return nil, false
 		}
 		// the statement must sit directly in a statement list
@@ -251,7 +252,10 @@ func (s *sequencer) schedule(ops []opRec) ([]seqOp, int) {
 	var prev placedAt
 	for _, op := range ops {
 		placed := false
-		for _, w := range op.Where {
+		for wi, w := range op.Where {
+			if wi > 0 {
+				break // only the innermost repository frame: a point further out is passed too early
+			}
 			var line, col, serial int
 			if h := strings.LastIndex(w, "#"); h >= 0 {
 				fmt.Sscanf(w[h+1:], "%d", &serial)
